@@ -97,7 +97,9 @@ def main():
         for (idx, spin, e) in (lv or [(0, "0+", 0.0)]):
             for mode in (1, 3, 7, 11, 12, 20):
                 if t and genmon.rule_accepts(table, name, idx, mode):
-                    lines.append("D %s %d %d %s %s" % (name, idx, mode, lowfn, " ".join(chain)))
+                    # the level energy (keV) the de-excitation routine must be entered with: from the reference table (itself
+                    # cross-checked with the README level list by C03), never from the code under test
+                    lines.append("D %s %d %d %d %s %s" % (name, idx, mode, int(round(t["levels"][idx])), lowfn, " ".join(chain)))
                     break
     exe = build.harness("plain", "c05_dispatch", ["c05_dispatch.cc"], extra_flags="-I" + gen_dir)
     spec = tempfile.NamedTemporaryFile("w", suffix=".spec", delete=False, dir=bdir)
